@@ -9,6 +9,10 @@
     c01 load <std|light> cells=<facts> sst=<facts>  -> dump of what the model reader makes of these facts
     c01 rawload cells=<facts> sst=<facts> hints=<…> -> the model reader on hand-made facts (same reply format as load)
     c01 nums <n> <seed>                             -> ok   (implementation-only oracle: f64 round trip)
+    c01 chars <std|light> drop=<s:col:row,…|~> <sst part hex|~> <sheet part hex>|…
+                                                    -> render=same xml <dump of readBookChars on these characters>
+                                                       (character-level leg, `Umya/Driver/C01Chars.lean`)
+    c01 charsorig <sst part hex|~> <sheet part hex>|… -> nonxml-parts=<k> rejected=<k>
 
   Numbers are `Display` texts; the optional `num=` hint carries what Rust's `parse::<f64>()` + `Display`
   make of a text that the model's `floatSyntax` accepts.  A value stored with `set_value_lazy` (op `l`) is typed
@@ -18,6 +22,7 @@
 -/
 import Umya.Driver.Proto
 import Umya.Model.CellXml
+import Umya.Driver.C01Chars
 namespace Umya.Driver.C01
 open Umya.Proto Umya.CellXml Umya.Num Umya.Xml
 
@@ -269,6 +274,8 @@ def handle (st : St) (args : List String) : St × String :=
       | some sheets => (st, dumpStr sheets)
       | none => (st, "panic")
   | ["nums", _, _] => (st, "ok")
+  | ["chars", _w, drop, sst, parts] => (st, Umya.Driver.C01Chars.chars dumpStr st.hints st.sheets drop sst parts)
+  | ["charsorig", sst, parts] => (st, Umya.Driver.C01Chars.charsOrig sst parts)
   | _ => (st, "bad-op")
 
 end Umya.Driver.C01
